@@ -79,6 +79,8 @@ pub struct Outcome {
     /// semantic probe: hover on the marker local of every document (the tree probe reads the text
     /// the VFS holds, this one reads what the index knows about it)
     pub sem_probe: Vec<(usize, i32)>,
+    /// the last .emmyrc.json written excludes `**/deep/**` from the workspace
+    pub ignore_deep_final: bool,
     pub editor_at_probe: Vec<Option<String>>,
     pub disk_at_probe: Vec<Option<String>>,
     pub probe_start_seq: usize,
@@ -214,13 +216,21 @@ fn write_file(path: &Path, text: &str) {
 }
 
 fn emmyrc_json(interval: Option<u64>, enable_reindex: bool, reindex_duration: u64) -> String {
+    emmyrc_json_full(interval, enable_reindex, reindex_duration, false)
+}
+
+fn emmyrc_json_full(interval: Option<u64>, enable_reindex: bool, reindex_duration: u64, ignore_deep: bool) -> String {
     let mut diag = serde_json::Map::new();
     if let Some(i) = interval {
         diag.insert("diagnosticInterval".into(), json!(i));
     }
     json!({
         "diagnostics": Value::Object(diag),
-        "workspace": {"enableReindex": enable_reindex, "reindexDuration": reindex_duration},
+        "workspace": {
+            "enableReindex": enable_reindex,
+            "reindexDuration": reindex_duration,
+            "ignoreGlobs": if ignore_deep { json!(["**/deep/**"]) } else { json!([]) },
+        },
     })
     .to_string()
 }
@@ -602,12 +612,16 @@ impl Client {
                     self.send_watch(&evs);
                 }
             }
-            Action::EmmyrcWrite { diagnostic_interval, enable_reindex, reindex_duration } => {
+            Action::EmmyrcWrite { diagnostic_interval, enable_reindex, reindex_duration, ignore_deep } => {
                 let existed = self.emmyrc_path.exists();
                 write_file(
                     &self.emmyrc_path,
-                    &emmyrc_json(*diagnostic_interval, *enable_reindex, *reindex_duration),
+                    &emmyrc_json_full(*diagnostic_interval, *enable_reindex, *reindex_duration, *ignore_deep),
                 );
+                self.out.ignore_deep_final = *ignore_deep;
+                if *ignore_deep {
+                    self.count("fault.workspace_membership_flip");
+                }
                 self.count("fault.emmyrc_rewritten");
                 self.enqueue_watch(WatchTarget::Emmyrc, if existed { 2 } else { 1 });
             }
